@@ -30,6 +30,7 @@ type G struct {
 	depth    int
 	isMain   bool
 	helper   bool // created by the harness through verif.Go
+	stalled  bool // explore/stall: preempted and kept off the processor until everything else has come to rest
 	result   Value
 	startPos token.Pos
 	vc       []int // vector clock (race detector)
@@ -139,7 +140,7 @@ func (vm *VM) candidates(except *G) []*G {
 	var c []*G
 	var mainC *G
 	for _, h := range vm.gs {
-		if h == except || h.state == gDone {
+		if h == except || h.state == gDone || h.stalled {
 			continue
 		}
 		if h.isMain {
@@ -193,12 +194,36 @@ func (g *G) passOn() {
 			next.wake <- struct{}{}
 			return
 		}
+		if vm.releaseStalled() {
+			continue
+		}
 		if vm.fireSomeTimer() {
 			continue
 		}
 		vm.deadlock()
 		return
 	}
+}
+
+// releaseStalled makes every stalled goroutine schedulable again.
+func (vm *VM) releaseStalled() bool {
+	any := false
+	for _, h := range vm.gs {
+		if h.stalled {
+			h.stalled = false
+			any = true
+		}
+	}
+	return any
+}
+
+func (vm *VM) anyStalled() bool {
+	for _, h := range vm.gs {
+		if h.stalled && h.state != gDone {
+			return true
+		}
+	}
+	return false
 }
 
 func (vm *VM) deadlock() {
@@ -250,6 +275,9 @@ func (g *G) block(desc string, ready func() bool) {
 	for !ready() {
 		c := vm.candidates(g)
 		if len(c) == 0 {
+			if vm.releaseStalled() {
+				continue
+			}
 			if vm.fireSomeTimer() {
 				continue
 			}
@@ -288,7 +316,48 @@ func (g *G) schedPoint(kind string) {
 			cc = append(cc, h)
 		}
 	}
-	if g.isMain || len(cc) == 0 {
+	if g.isMain {
+		return
+	}
+	if vm.cfg.Stall {
+		// stall: this goroutine stops here, just before the operation, and stays off the processor until every
+		// other goroutine has come to rest (and, with a stall span, across further steps of the harness)
+		if len(cc) == 0 && (vm.stallSpanUsed >= vm.cfg.StallSpan || !vm.mainKeepOK) {
+			return // nobody else to run, and the harness would release us at once
+		}
+		// ... and which of the others goes first is a choice too
+		k := vm.choose(len(cc)+1+b2i(len(cc) == 0), "sched-stall:"+kind, 'S')
+		if k == 0 {
+			return
+		}
+		var first *G
+		if len(cc) > 0 {
+			first = cc[k-1]
+		}
+		vm.preempts++
+		vm.logEvent(fmt.Sprintf("g%d %s stalls before %s at %s", g.id, g.name, kind, g.where()))
+		g.stalled = true
+		g.state = gBlocked
+		g.waitDesc = "stalled"
+		g.ready = func() bool { return !g.stalled }
+		for g.stalled {
+			c := vm.candidates(g)
+			if len(c) == 0 {
+				vm.releaseStalled()
+				break
+			}
+			next := c[0]
+			if first != nil && first.state != gDone && first.enabled() && !first.stalled {
+				next = first
+			}
+			first = nil
+			vm.switchTo(g, next)
+		}
+		g.state = gRunning
+		g.ready = nil
+		return
+	}
+	if len(cc) == 0 {
 		return
 	}
 	k := vm.choose(len(cc)+1, "sched-preempt:"+kind, 'S')
@@ -302,11 +371,43 @@ func (g *G) schedPoint(kind string) {
 }
 
 // yield lets everything else run until nothing but main is enabled (canonical Quiesce).
-func (g *G) quiesce() {
+func (g *G) quiesce() { g.quiesceK(false) }
+
+// quiesceK: keepOK (verif.QuiesceKeep) lets a stalled goroutine that holds no lock stay stalled across this
+// point, so that the harness can take further steps meanwhile (bounded by stall_span).
+func (g *G) quiesceK(keepOK bool) {
+	vm := g.vm
+	if g.isMain {
+		vm.mainKeepOK = keepOK
+		defer func() { vm.mainKeepOK = false }()
+	}
+	for {
+		g.quiesce1()
+		if !vm.anyStalled() {
+			return
+		}
+		if keepOK && g.isMain && vm.stallSpanUsed < vm.cfg.StallSpan && !vm.stalledHoldsLock() && vm.choose(2, "stall-keep", 'S') == 1 {
+			vm.stallSpanUsed++
+			return
+		}
+		vm.releaseStalled()
+	}
+}
+
+func (vm *VM) stalledHoldsLock() bool {
+	for _, h := range vm.gs {
+		if h.stalled && h.state != gDone && len(h.held) > 0 {
+			return true
+		}
+	}
+	return false
+}
+
+func (g *G) quiesce1() {
 	vm := g.vm
 	g.block("quiesce", func() bool {
 		for _, h := range vm.gs {
-			if h == g || h.state == gDone {
+			if h == g || h.state == gDone || h.stalled {
 				continue
 			}
 			if h.state == gBlocked && h.waitDesc == "quiesce" {
@@ -893,4 +994,11 @@ func (vm *VM) logEvent(s string) {
 	if len(vm.evlog) < 4000 {
 		vm.evlog = append(vm.evlog, s)
 	}
+}
+
+func b2i(b bool) int {
+	if b {
+		return 1
+	}
+	return 0
 }
